@@ -5,6 +5,7 @@ import (
 	"go/ast"
 	"go/token"
 	"go/types"
+	"golang.org/x/tools/go/packages"
 	"reflect"
 	"regexp"
 	"sort"
@@ -81,6 +82,38 @@ func allLints(f *Func) []LintHit {
 	for _, se := range SwallowedErrors(f) {
 		out = append(out, LintHit{"swallow", fmt.Sprintf("%s#swallow(%s)", f.Name, se.Err.Name()), se.Ret.Pos(),
 			fmt.Sprintf("the function returns nil in the branch where %s is non-nil and never looks at it: the failure is reported as success (a stop sentinel or a real error is dropped)", se.Err.Name())})
+	}
+	if _, cs := CopySlips(f); len(cs) > 0 {
+		for _, x := range cs {
+			out = append(out, LintHit{"copyslip", fmt.Sprintf("%s#copy(%s:%s)", f.Name, x.Field, x.Has), x.Pos,
+				fmt.Sprintf("field %s is filled from %s although the sibling fields of its family are filled from %s where the parallel family uses %s: an identifier left unrenamed after copying the block", x.Field, x.Has, x.Want, x.Has)})
+		}
+	}
+	for _, x := range IndexSpaceMixes(f) {
+		out = append(out, LintHit{"idxspace", fmt.Sprintf("%s#index(%s/%s)", f.Name, x.Var, x.Base), x.Use.Pos(),
+			fmt.Sprintf("%s indexes the re-sliced range `%s` (it counts from the slice's low bound) but `%s` treats it as an index of %s itself: the wrong pair of elements is compared or read", x.Var, Src(f.Pkg.Fset, x.Inner.X), Src(f.Pkg.Fset, x.Use), x.Base)})
+	}
+	for _, w := range SeqParityWords {
+		for _, x := range SeqParity(f, w[0], w[1]) {
+			out = append(out, LintHit{"seqparity", fmt.Sprintf("%s#order(%s.%s/%s.%s)", f.Name, x.VarA, x.Method, x.VarB, x.Method), x.Pos,
+				fmt.Sprintf("%s receives its %s calls in the order [%s] but its sibling %s in the order [%s]: a later call wins, so the two families resolve a clash between the same sources differently", x.VarA, x.Method, strings.Join(x.SeqA, "; "), x.VarB, strings.Join(x.SeqB, "; "))})
+		}
+	}
+	for _, x := range CloneConds(f) {
+		out = append(out, LintHit{"clonecond", fmt.Sprintf("%s#clone(%s)", f.Name, x.Cond), x.If.Pos(),
+			fmt.Sprintf("`if %s` guards a block that is repeated verbatim %d more times in this function under `if %s`: the same operands with another constant or operator", x.Cond, x.Clones, x.Majority)})
+	}
+	for _, x := range LookupBypasses(f) {
+		out = append(out, LintHit{"bypass", fmt.Sprintf("%s#bypass(%s:%s.%s)", f.Name, x.Var, x.Recv, x.Sel), x.Use.Pos(),
+			fmt.Sprintf("%s is looked up in %s and only compared with nil; the code then asks %s.%s although %s has %s too: the question is answered by the container instead of the element just found", x.Var, x.Recv, x.Recv, x.Sel, x.Var, x.Sel)})
+	}
+	for _, x := range AliasStores(f) {
+		out = append(out, LintHit{"aliasstore", fmt.Sprintf("%s#alias(%s.%s)", f.Name, x.Var, x.Field), x.Store.Pos(),
+			fmt.Sprintf("%s comes from %s, which hands its argument's %s over as is; the element store `%s` therefore writes into the original's %s as well", x.Var, x.Copier, x.Field, Src(f.Pkg.Fset, x.Store), x.Field)})
+	}
+	for _, x := range ConsumedArgs(f) {
+		out = append(out, LintHit{"consumedarg", fmt.Sprintf("%s#consumed(%s:%s)", f.Name, x.Callee, x.Arg), x.Call.Pos(),
+			fmt.Sprintf("%s reads an entry of %s and deletes it, and is called here in a loop with the same %s on every iteration: the first call finds the entry, the later ones find nothing", x.Callee, x.Map, x.Arg)})
 	}
 	for _, r := range RawAfterNormaliseds(f) {
 		out = append(out, LintHit{"rawname", fmt.Sprintf("%s#raw(%s→%s)", f.Name, r.Raw, r.Use), r.Call.Pos(),
@@ -1777,6 +1810,877 @@ func SwallowedErrors(f *Func) []SwallowedError {
 			}
 			if !used {
 				out = append(out, SwallowedError{rs, o})
+			}
+		}
+		return true
+	})
+	return out
+}
+
+// PoolHygiene: a value taken from a sync.Pool carries whatever its previous user left in it. For every pool (a
+// package-level variable or a struct field of type sync.Pool), either every function that Gets from it Resets the
+// value before any other use, or every function that Puts into it Resets the value first. A pool whose users do
+// neither hands one request's bytes to the next.
+type PoolLeak struct {
+	Pool string
+	Get  *ast.CallExpr
+	In   *Func
+}
+
+// PoolLeaks finds the pattern among funcs (all users of a pool must be in funcs).
+func PoolLeaks(funcs []*Func) (pools int, out []PoolLeak) {
+	type site struct {
+		f     *Func
+		call  *ast.CallExpr
+		reset bool
+	}
+	gets, puts := map[types.Object][]site{}, map[types.Object][]site{}
+	for _, f := range funcs {
+		info := f.Pkg.TypesInfo
+		poolOf := func(recv ast.Expr) types.Object {
+			tv, ok := info.Types[recv]
+			if !ok {
+				return nil
+			}
+			t := tv.Type
+			if p, isPtr := t.(*types.Pointer); isPtr {
+				t = p.Elem()
+			}
+			if NamedTypeName(t) != "sync.Pool" {
+				return nil
+			}
+			if fv := FieldOf(info, recv); fv != nil {
+				return fv
+			}
+			if id := RootIdent(recv); id != nil {
+				return ObjOf(info, id)
+			}
+			return nil
+		}
+		resetsOf := func(o types.Object, before, after token.Pos) bool {
+			found := false
+			ast.Inspect(f.Decl.Body, func(n ast.Node) bool {
+				call, ok := n.(*ast.CallExpr)
+				if !ok {
+					return true
+				}
+				se, ok := Unparen(call.Fun).(*ast.SelectorExpr)
+				if ok && (se.Sel.Name == "Reset" || se.Sel.Name == "Truncate") && ObjOf(info, se.X) == o && call.Pos() > after && (before == token.NoPos || call.Pos() < before) {
+					found = true
+				}
+				return true
+			})
+			return found
+		}
+		ast.Inspect(f.Decl.Body, func(n ast.Node) bool {
+			switch x := n.(type) {
+			case *ast.AssignStmt:
+				// v := pool.Get().(*T)  /  v, ok := pool.Get().(*T)
+				if len(x.Rhs) != 1 {
+					return true
+				}
+				rhs := Unparen(x.Rhs[0])
+				if ta, ok := rhs.(*ast.TypeAssertExpr); ok {
+					rhs = Unparen(ta.X)
+				}
+				call, ok := rhs.(*ast.CallExpr)
+				if !ok {
+					return true
+				}
+				se, ok := Unparen(call.Fun).(*ast.SelectorExpr)
+				if !ok || se.Sel.Name != "Get" {
+					return true
+				}
+				if p := poolOf(se.X); p != nil {
+					v := ObjOf(info, x.Lhs[0])
+					if v == nil || !hasResetMethod(v.Type()) {
+						// a pooled type without Reset/Truncate is cleaned in some type-specific way the rule does not know: not decided
+						return true
+					}
+					// reset before the first other use of v: the first statement mentioning v after the Get
+					reset := false
+					if v != nil {
+						var firstUse token.Pos
+						ast.Inspect(f.Decl.Body, func(m ast.Node) bool {
+							if id, ok := m.(*ast.Ident); ok && info.Uses[id] == v && id.Pos() > x.End() && (firstUse == token.NoPos || id.Pos() < firstUse) {
+								firstUse = id.Pos()
+							}
+							return true
+						})
+						reset = firstUse != token.NoPos && resetsOf(v, firstUse+20, x.End()) // the first use is the Reset call itself
+					}
+					gets[p] = append(gets[p], site{f, call, reset})
+				}
+			case *ast.CallExpr:
+				se, ok := Unparen(x.Fun).(*ast.SelectorExpr)
+				if !ok || se.Sel.Name != "Put" || len(x.Args) != 1 {
+					return true
+				}
+				if p := poolOf(se.X); p != nil {
+					reset := false
+					if v := ObjOf(info, x.Args[0]); v != nil {
+						reset = resetsOf(v, x.Pos(), token.NoPos)
+					} else if fv := FieldOf(info, x.Args[0]); fv != nil {
+						// a field of the receiver: accept a Reset on the same field expression before the Put
+						ast.Inspect(f.Decl.Body, func(m ast.Node) bool {
+							if call, ok := m.(*ast.CallExpr); ok && call.Pos() < x.Pos() {
+								if s2, ok := Unparen(call.Fun).(*ast.SelectorExpr); ok && (s2.Sel.Name == "Reset" || s2.Sel.Name == "Truncate") && FieldOf(info, s2.X) == fv {
+									reset = true
+								}
+							}
+							return true
+						})
+					}
+					puts[p] = append(puts[p], site{f, x, reset})
+				}
+			}
+			return true
+		})
+	}
+	for p, gs := range gets {
+		pools++
+		allGetsReset := true
+		for _, g := range gs {
+			if !g.reset {
+				allGetsReset = false
+			}
+		}
+		if len(puts[p]) == 0 {
+			continue // nothing is ever returned to the pool: every Get is a fresh value
+		}
+		allPutsReset := true
+		for _, q := range puts[p] {
+			if !q.reset {
+				allPutsReset = false
+			}
+		}
+		if allGetsReset || allPutsReset {
+			continue
+		}
+		for _, g := range gs {
+			if !g.reset {
+				out = append(out, PoolLeak{p.Name(), g.call, g.f})
+			}
+		}
+	}
+	sort.Slice(out, func(i, j int) bool { return out[i].Get.Pos() < out[j].Get.Pos() })
+	return pools, out
+}
+
+func hasResetMethod(t types.Type) bool {
+	for _, name := range []string{"Reset", "Truncate"} {
+		if o, _, _ := types.LookupFieldOrMethod(t, true, nil, name); o != nil {
+			if _, ok := o.(*types.Func); ok {
+				return true
+			}
+		}
+	}
+	return false
+}
+
+// CopySlip is an identifier left unrenamed in one of two parallel field families of a keyed composite literal:
+// the literal fills fields PxxxA, PxxxB, PxxxC and QxxxA, QxxxB, QxxxC from expressions that are the same up to a
+// consistent renaming (userAtt→passAtt), except that one Q field still mentions the P identifier (or the reverse).
+type CopySlip struct {
+	Field string // the field whose value mentions the other family's identifier
+	Has   string
+	Want  string
+	Pos   token.Pos
+}
+
+func camelSplit(name string) (first, rest string) {
+	for i := 1; i < len(name); i++ {
+		if name[i] >= 'A' && name[i] <= 'Z' && !(name[i-1] >= 'A' && name[i-1] <= 'Z') {
+			return name[:i], name[i:]
+		}
+	}
+	return name, ""
+}
+
+// identLeaves returns the identifiers of e in source order and the shape of e with every identifier blanked.
+func identLeaves(fset *token.FileSet, e ast.Expr) (ids []*ast.Ident, shape string) {
+	var sb strings.Builder
+	ast.Inspect(e, func(n ast.Node) bool {
+		switch x := n.(type) {
+		case *ast.Ident:
+			ids = append(ids, x)
+			sb.WriteString("_ ")
+		case *ast.BasicLit:
+			sb.WriteString(x.Value + " ")
+		case nil:
+			sb.WriteString(") ")
+		default:
+			sb.WriteString(fmt.Sprintf("%T( ", n))
+			if b, ok := n.(*ast.BinaryExpr); ok {
+				sb.WriteString(b.Op.String() + " ")
+			}
+			if u, ok := n.(*ast.UnaryExpr); ok {
+				sb.WriteString(u.Op.String() + " ")
+			}
+		}
+		return true
+	})
+	return ids, sb.String()
+}
+
+// CopySlips returns the number of field-family pairs compared in f and the slips found.
+func CopySlips(f *Func) (families int, out []CopySlip) {
+	ast.Inspect(f.Decl.Body, func(n ast.Node) bool {
+		lit, ok := n.(*ast.CompositeLit)
+		if !ok {
+			return true
+		}
+		bySuffix := map[string]map[string]ast.Expr{} // suffix -> prefix -> value
+		prefixes := map[string]bool{}
+		for _, el := range lit.Elts {
+			kv, ok := el.(*ast.KeyValueExpr)
+			if !ok {
+				return true
+			}
+			k, ok := kv.Key.(*ast.Ident)
+			if !ok {
+				return true
+			}
+			p, s := camelSplit(k.Name)
+			if s == "" {
+				continue
+			}
+			if bySuffix[s] == nil {
+				bySuffix[s] = map[string]ast.Expr{}
+			}
+			bySuffix[s][p] = kv.Value
+			prefixes[p] = true
+		}
+		var ps []string
+		for p := range prefixes {
+			ps = append(ps, p)
+		}
+		sort.Strings(ps)
+		for i, P := range ps {
+			for _, Q := range ps[i+1:] {
+				type pos struct {
+					suffix string
+					p, q   *ast.Ident
+				}
+				var all []pos
+				shared := 0
+				var sufs []string
+				for s, m := range bySuffix {
+					if m[P] != nil && m[Q] != nil {
+						sufs = append(sufs, s)
+					}
+				}
+				sort.Strings(sufs)
+				for _, s := range sufs {
+					pi, psh := identLeaves(f.Pkg.Fset, bySuffix[s][P])
+					qi, qsh := identLeaves(f.Pkg.Fset, bySuffix[s][Q])
+					if psh != qsh || len(pi) != len(qi) {
+						continue
+					}
+					shared++
+					for k := range pi {
+						all = append(all, pos{s, pi[k], qi[k]})
+					}
+				}
+				if shared < 3 {
+					continue
+				}
+				families++
+				// votes: in how many suffixes is x renamed to y (x != y)
+				fwd, bwd := map[string]map[string]map[string]bool{}, map[string]map[string]map[string]bool{}
+				vote := func(m map[string]map[string]map[string]bool, x, y, s string) {
+					if m[x] == nil {
+						m[x] = map[string]map[string]bool{}
+					}
+					if m[x][y] == nil {
+						m[x][y] = map[string]bool{}
+					}
+					m[x][y][s] = true
+				}
+				for _, a := range all {
+					if a.p.Name != a.q.Name {
+						vote(fwd, a.p.Name, a.q.Name, a.suffix)
+						vote(bwd, a.q.Name, a.p.Name, a.suffix)
+					}
+				}
+				best := func(m map[string]map[string]map[string]bool, x string) (string, int) {
+					by, n := "", 0
+					if len(m[x]) != 1 {
+						return "", 0 // renamed inconsistently: no evidence
+					}
+					for y, ss := range m[x] {
+						by, n = y, len(ss)
+					}
+					return by, n
+				}
+				for _, a := range all {
+					if a.p.Name != a.q.Name {
+						continue
+					}
+					x := a.p.Name
+					same := 0
+					for _, b := range all {
+						if b.p.Name == x && b.q.Name == x && b.suffix != a.suffix {
+							same++
+						}
+					}
+					if same > 0 {
+						continue // x is shared by both families elsewhere too
+					}
+					if y, n := best(fwd, x); n >= 2 && fwd[y] == nil {
+						out = append(out, CopySlip{Q + a.suffix, x, y, a.q.Pos()})
+					} else if y, n := best(bwd, x); n >= 2 && bwd[y] == nil {
+						out = append(out, CopySlip{P + a.suffix, x, y, a.p.Pos()})
+					}
+				}
+			}
+		}
+		return true
+	})
+	return families, out
+}
+
+// IndexSpaceMix is an index of a re-sliced range (`for j := range xs[lo:]`) that is compared with an index of xs
+// itself, or used to index xs: j counts from lo, not from 0, so `i != j` and `xs[j]` look at the wrong element.
+type IndexSpaceMix struct {
+	Inner *ast.RangeStmt
+	Use   ast.Node
+	Var   string
+	Base  string
+}
+
+func IndexSpaceMixes(f *Func) []IndexSpaceMix {
+	info := f.Pkg.TypesInfo
+	var out []IndexSpaceMix
+	ast.Inspect(f.Decl.Body, func(n ast.Node) bool {
+		inner, ok := n.(*ast.RangeStmt)
+		if !ok || inner.Key == nil {
+			return true
+		}
+		se, ok := Unparen(inner.X).(*ast.SliceExpr)
+		if !ok || se.Low == nil {
+			return true
+		}
+		if bl, ok := Unparen(se.Low).(*ast.BasicLit); ok && bl.Value == "0" {
+			return true
+		}
+		j := ObjOf(info, inner.Key)
+		if j == nil {
+			return true
+		}
+		base := types.ExprString(se.X)
+		// indexes of the unsliced collection: keys of enclosing/other range statements over the same expression
+		outerIdx := map[types.Object]bool{}
+		ast.Inspect(f.Decl.Body, func(m ast.Node) bool {
+			if r, ok := m.(*ast.RangeStmt); ok && r != inner && r.Key != nil && types.ExprString(r.X) == base && r.Pos() <= inner.Pos() && inner.End() <= r.End() {
+				if o := ObjOf(info, r.Key); o != nil {
+					outerIdx[o] = true
+				}
+			}
+			return true
+		})
+		ast.Inspect(inner.Body, func(m ast.Node) bool {
+			switch x := m.(type) {
+			case *ast.BinaryExpr:
+				switch x.Op {
+				case token.EQL, token.NEQ, token.LSS, token.LEQ, token.GTR, token.GEQ:
+					a, b := ObjOf(info, Unparen(x.X)), ObjOf(info, Unparen(x.Y))
+					if (a == j && outerIdx[b]) || (b == j && outerIdx[a]) {
+						out = append(out, IndexSpaceMix{inner, x, j.Name(), base})
+					}
+				}
+			case *ast.IndexExpr:
+				if types.ExprString(x.X) == base && ObjOf(info, Unparen(x.Index)) == j {
+					out = append(out, IndexSpaceMix{inner, x, j.Name(), base})
+				}
+			}
+			return true
+		})
+		return true
+	})
+	return out
+}
+
+// CloneCond is an if statement whose body is a verbatim copy of the body of at least two other if statements of the
+// same function that all test one condition, while this one tests the same operands with another constant or
+// comparison operator (len(x) > 1 where its clones test len(x) > 0).
+type CloneCond struct {
+	If       *ast.IfStmt
+	Cond     string
+	Majority string
+	Clones   int
+}
+
+func condSkeleton(e ast.Expr) string {
+	// the condition with integer literals and comparison operators blanked
+	var sb strings.Builder
+	var walk func(ast.Expr)
+	walk = func(e ast.Expr) {
+		switch x := Unparen(e).(type) {
+		case *ast.BinaryExpr:
+			walk(x.X)
+			switch x.Op {
+			case token.EQL, token.NEQ, token.LSS, token.LEQ, token.GTR, token.GEQ:
+				sb.WriteString(" ? ")
+			default:
+				sb.WriteString(" " + x.Op.String() + " ")
+			}
+			walk(x.Y)
+		case *ast.BasicLit:
+			if x.Kind == token.INT {
+				sb.WriteString("#")
+			} else {
+				sb.WriteString(x.Value)
+			}
+		default:
+			sb.WriteString(types.ExprString(x))
+		}
+	}
+	walk(e)
+	return sb.String()
+}
+
+func CloneConds(f *Func) []CloneCond {
+	type ent struct {
+		s    *ast.IfStmt
+		cond string
+		skel string
+	}
+	groups := map[string][]ent{}
+	ast.Inspect(f.Decl.Body, func(n ast.Node) bool {
+		is, ok := n.(*ast.IfStmt)
+		if !ok || is.Init != nil || is.Else != nil || len(is.Body.List) == 0 {
+			return true
+		}
+		body := strings.Join(strings.Fields(Src(f.Pkg.Fset, is.Body)), " ")
+		if len(body) < 40 {
+			return true // trivial bodies (return nil, continue) are shared by unrelated guards
+		}
+		groups[body] = append(groups[body], ent{is, types.ExprString(is.Cond), condSkeleton(is.Cond)})
+		return true
+	})
+	var out []CloneCond
+	for _, g := range groups {
+		if len(g) < 3 {
+			continue
+		}
+		count := map[string]int{}
+		for _, e := range g {
+			count[e.cond]++
+		}
+		maj, majN := "", 0
+		for c, n := range count {
+			if n > majN {
+				maj, majN = c, n
+			}
+		}
+		if majN < 2 || majN != len(g)-1 {
+			continue
+		}
+		var majSkel string
+		for _, e := range g {
+			if e.cond == maj {
+				majSkel = e.skel
+			}
+		}
+		for _, e := range g {
+			if e.cond != maj && e.skel == majSkel {
+				out = append(out, CloneCond{e.s, e.cond, maj, majN})
+			}
+		}
+	}
+	sort.Slice(out, func(i, j int) bool { return out[i].If.Pos() < out[j].If.Pos() })
+	return out
+}
+
+// LookupBypass is a value looked up in a receiver (`v := r.View(name)`) that is only ever compared with nil, while
+// the code after the test asks the receiver r itself for something v could have answered (r.Find where v.Find
+// exists): the answer is computed on the container, not on the element that was just looked up.
+type LookupBypass struct {
+	Def  *ast.AssignStmt
+	Var  string
+	Recv string
+	Sel  string
+	Use  ast.Node
+}
+
+func LookupBypasses(f *Func) []LookupBypass {
+	info := f.Pkg.TypesInfo
+	var out []LookupBypass
+	var g *CFG
+	ast.Inspect(f.Decl.Body, func(n ast.Node) bool {
+		as, ok := n.(*ast.AssignStmt)
+		if !ok || as.Tok != token.DEFINE || len(as.Lhs) != 1 || len(as.Rhs) != 1 {
+			return true
+		}
+		call, ok := Unparen(as.Rhs[0]).(*ast.CallExpr)
+		if !ok {
+			return true
+		}
+		se, ok := Unparen(call.Fun).(*ast.SelectorExpr)
+		if !ok {
+			return true
+		}
+		rid, ok := Unparen(se.X).(*ast.Ident)
+		if !ok {
+			return true
+		}
+		r := ObjOf(info, rid)
+		if _, isVar := r.(*types.Var); !isVar {
+			return true
+		}
+		vid, ok := as.Lhs[0].(*ast.Ident)
+		if !ok || vid.Name == "_" {
+			return true
+		}
+		v := info.Defs[vid]
+		if v == nil {
+			return true
+		}
+		switch v.Type().Underlying().(type) {
+		case *types.Pointer, *types.Interface:
+		default:
+			return true
+		}
+		// every use of v is an operand of a nil comparison
+		parents := ParentMap(f.Decl.Body)
+		uses, nilOnly := 0, true
+		ast.Inspect(f.Decl.Body, func(m ast.Node) bool {
+			id, ok := m.(*ast.Ident)
+			if !ok || info.Uses[id] != v {
+				return true
+			}
+			uses++
+			p := parents[id]
+			for {
+				if pe, ok := p.(*ast.ParenExpr); ok {
+					p = parents[pe]
+					continue
+				}
+				break
+			}
+			be, ok := p.(*ast.BinaryExpr)
+			if !ok || (be.Op != token.EQL && be.Op != token.NEQ) || (!IsNilIdent(info, be.X) && !IsNilIdent(info, be.Y)) {
+				nilOnly = false
+			}
+			return true
+		})
+		if uses == 0 || !nilOnly {
+			return true
+		}
+		// a later question to r that v could answer
+		ast.Inspect(f.Decl.Body, func(m ast.Node) bool {
+			s2, ok := m.(*ast.SelectorExpr)
+			if !ok || s2.Pos() < as.End() {
+				return true
+			}
+			id, ok := Unparen(s2.X).(*ast.Ident)
+			if !ok || ObjOf(info, id) != r || s2.Sel.Name == se.Sel.Name {
+				return true
+			}
+			o, _, _ := types.LookupFieldOrMethod(v.Type(), true, f.Pkg.Types, s2.Sel.Name)
+			o2, _, _ := types.LookupFieldOrMethod(r.Type(), true, f.Pkg.Types, s2.Sel.Name)
+			// the same question: one method or field promoted into both types from a common embedded type, or the
+			// embedded value of one type itself (two unrelated fields that merely share a name are two questions)
+			same := o != nil && o == o2
+			if fv, ok := o.(*types.Var); ok && !same {
+				if fv2, ok := o2.(*types.Var); ok && fv.Embedded() && fv2.Embedded() && types.Identical(fv.Type(), fv2.Type()) {
+					same = true
+				}
+			}
+			if same {
+				// only where v is known to be non-nil (where it is nil there is nothing else to ask)
+				if g == nil {
+					g = NewCFG(info, f.Decl.Body)
+				}
+				if g.NonNilAtNode(v, s2) {
+					out = append(out, LookupBypass{as, vid.Name, rid.Name, s2.Sel.Name, s2})
+				}
+			}
+			return true
+		})
+		return true
+	})
+	return out
+}
+
+// AliasStore is an element store into a slice or map field of a value obtained from a copier that shares that field
+// with its argument (`res := d.DupAttribute(att)` returns &T{Bases: att.Bases, …}; `res.Bases[i] = …` then writes
+// into att's own backing array): the "copy" is customised and the original changes with it.
+type AliasStore struct {
+	Store  *ast.AssignStmt
+	Var    string
+	Field  string
+	Copier string
+}
+
+func declOfFunc(pkg *packages.Package, fn *types.Func) (*ast.FuncDecl, *types.Info) {
+	if fn == nil || fn.Pkg() == nil {
+		return nil, nil
+	}
+	cands := []*packages.Package{pkg}
+	if p := pkg.Imports[fn.Pkg().Path()]; p != nil {
+		cands = append(cands, p)
+	}
+	for _, p := range cands {
+		if p.Types != fn.Pkg() || p.TypesInfo == nil {
+			continue
+		}
+		for _, file := range p.Syntax {
+			for _, d := range file.Decls {
+				if fd, ok := d.(*ast.FuncDecl); ok && p.TypesInfo.Defs[fd.Name] == fn {
+					return fd, p.TypesInfo
+				}
+			}
+		}
+	}
+	return nil, nil
+}
+
+// sharedFieldsOf returns the slice/map fields that every struct literal returned by fd takes as is from the like-named
+// field of one of fd's parameters.
+func sharedFieldsOf(fd *ast.FuncDecl, info *types.Info) map[string]bool {
+	out := map[string]bool{}
+	if fd == nil || fd.Body == nil {
+		return out
+	}
+	params := map[types.Object]bool{}
+	if fd.Type.Params != nil {
+		for _, fl := range fd.Type.Params.List {
+			for _, n := range fl.Names {
+				params[info.Defs[n]] = true
+			}
+		}
+	}
+	ast.Inspect(fd.Body, func(n ast.Node) bool {
+		kv, ok := n.(*ast.KeyValueExpr)
+		if !ok {
+			return true
+		}
+		k, ok := kv.Key.(*ast.Ident)
+		if !ok {
+			return true
+		}
+		se, ok := Unparen(kv.Value).(*ast.SelectorExpr)
+		if !ok || se.Sel.Name != k.Name {
+			return true
+		}
+		id, ok := Unparen(se.X).(*ast.Ident)
+		if !ok || !params[ObjOf(info, id)] {
+			return true
+		}
+		if tv, ok := info.Types[kv.Value]; ok {
+			switch tv.Type.Underlying().(type) {
+			case *types.Slice, *types.Map:
+				out[k.Name] = true
+			}
+		}
+		return true
+	})
+	return out
+}
+
+func AliasStores(f *Func) []AliasStore {
+	info := f.Pkg.TypesInfo
+	type origin struct {
+		fields map[string]bool
+		name   string
+		pos    token.Pos
+	}
+	from := map[types.Object]origin{}
+	ast.Inspect(f.Decl.Body, func(n ast.Node) bool {
+		as, ok := n.(*ast.AssignStmt)
+		if !ok || len(as.Lhs) != 1 || len(as.Rhs) != 1 {
+			return true
+		}
+		call, ok := Unparen(as.Rhs[0]).(*ast.CallExpr)
+		if !ok {
+			return true
+		}
+		id, ok := as.Lhs[0].(*ast.Ident)
+		if !ok {
+			return true
+		}
+		fn, _ := Callee(info, call).(*types.Func)
+		fd, finfo := declOfFunc(f.Pkg, fn)
+		if fd == nil {
+			return true
+		}
+		if sh := sharedFieldsOf(fd, finfo); len(sh) > 0 {
+			if o := ObjOf(info, id); o != nil {
+				from[o] = origin{sh, fn.Name(), as.End()}
+			}
+		}
+		return true
+	})
+	if len(from) == 0 {
+		return nil
+	}
+	var out []AliasStore
+	ast.Inspect(f.Decl.Body, func(n ast.Node) bool {
+		as, ok := n.(*ast.AssignStmt)
+		if !ok {
+			return true
+		}
+		for _, l := range as.Lhs {
+			ix, ok := Unparen(l).(*ast.IndexExpr)
+			if !ok {
+				continue
+			}
+			se, ok := Unparen(ix.X).(*ast.SelectorExpr)
+			if !ok {
+				continue
+			}
+			id, ok := Unparen(se.X).(*ast.Ident)
+			if !ok {
+				continue
+			}
+			o := ObjOf(info, id)
+			og, ok := from[o]
+			if !ok || !og.fields[se.Sel.Name] || as.Pos() < og.pos {
+				continue
+			}
+			// a whole-field store between the copy and the element store gives the copy a field of its own
+			fresh := false
+			ast.Inspect(f.Decl.Body, func(m ast.Node) bool {
+				a2, ok := m.(*ast.AssignStmt)
+				if !ok || a2.Pos() < og.pos || a2.Pos() >= as.Pos() {
+					return true
+				}
+				for _, l2 := range a2.Lhs {
+					if s2, ok := Unparen(l2).(*ast.SelectorExpr); ok && s2.Sel.Name == se.Sel.Name {
+						if i2, ok := Unparen(s2.X).(*ast.Ident); ok && ObjOf(info, i2) == o {
+							fresh = true
+						}
+					}
+				}
+				return true
+			})
+			if !fresh {
+				out = append(out, AliasStore{as, id.Name, se.Sel.Name, og.name})
+			}
+		}
+		return true
+	})
+	return out
+}
+
+// ConsumedArg is a call, made inside a loop with an argument that does not change from one iteration to the next, of
+// a function that consumes an entry of a map reached through that argument: it reads m[k] and then deletes it. The
+// first iteration finds the entry, every later one finds nothing (a nil slice, a zero value) where the first found
+// data.
+type ConsumedArg struct {
+	Call   *ast.CallExpr
+	Callee string
+	Arg    string
+	Map    string
+}
+
+// consumingParams returns, per parameter index of fd, the map expression the function reads and then deletes from.
+func consumingParams(fd *ast.FuncDecl, info *types.Info) map[int]string {
+	out := map[int]string{}
+	if fd == nil || fd.Body == nil || fd.Type.Params == nil {
+		return out
+	}
+	idx := map[types.Object]int{}
+	i := 0
+	for _, fl := range fd.Type.Params.List {
+		if len(fl.Names) == 0 {
+			i++
+			continue
+		}
+		for _, n := range fl.Names {
+			idx[info.Defs[n]] = i
+			i++
+		}
+	}
+	ast.Inspect(fd.Body, func(n ast.Node) bool {
+		call, ok := n.(*ast.CallExpr)
+		if !ok || len(call.Args) != 2 {
+			return true
+		}
+		id, ok := call.Fun.(*ast.Ident)
+		if !ok || id.Name != "delete" {
+			return true
+		}
+		if _, isBuiltin := info.Uses[id].(*types.Builtin); !isBuiltin {
+			return true
+		}
+		root := RootIdent(call.Args[0])
+		if root == nil {
+			return true
+		}
+		pi, isParam := idx[ObjOf(info, root)]
+		if !isParam {
+			return true
+		}
+		m, k := types.ExprString(call.Args[0]), types.ExprString(call.Args[1])
+		// a read of the same entry before the delete
+		read := false
+		ast.Inspect(fd.Body, func(x ast.Node) bool {
+			ix, ok := x.(*ast.IndexExpr)
+			if ok && ix.Pos() < call.Pos() && types.ExprString(ix.X) == m && types.ExprString(ix.Index) == k {
+				read = true
+			}
+			return true
+		})
+		if read {
+			out[pi] = m
+		}
+		return true
+	})
+	return out
+}
+
+func ConsumedArgs(f *Func) []ConsumedArg {
+	info := f.Pkg.TypesInfo
+	var out []ConsumedArg
+	var loops []ast.Node
+	ast.Inspect(f.Decl.Body, func(n ast.Node) bool {
+		switch n.(type) {
+		case *ast.ForStmt, *ast.RangeStmt:
+			loops = append(loops, n)
+		}
+		return true
+	})
+	if len(loops) == 0 {
+		return nil
+	}
+	ast.Inspect(f.Decl.Body, func(n ast.Node) bool {
+		call, ok := n.(*ast.CallExpr)
+		if !ok {
+			return true
+		}
+		var inner ast.Node
+		for _, l := range loops {
+			if l.Pos() <= call.Pos() && call.End() <= l.End() {
+				inner = l // the last one found is the innermost (pre-order)
+			}
+		}
+		if inner == nil {
+			return true
+		}
+		fn, _ := Callee(info, call).(*types.Func)
+		fd, finfo := declOfFunc(f.Pkg, fn)
+		if fd == nil {
+			return true
+		}
+		for pi, m := range consumingParams(fd, finfo) {
+			if pi >= len(call.Args) {
+				continue
+			}
+			arg := call.Args[pi]
+			invariant := true
+			ast.Inspect(arg, func(x ast.Node) bool {
+				if id, ok := x.(*ast.Ident); ok {
+					if o := ObjOf(info, id); o != nil && inner.Pos() <= o.Pos() && o.Pos() < inner.End() {
+						invariant = false
+					}
+				}
+				return true
+			})
+			if invariant {
+				out = append(out, ConsumedArg{call, fn.Name(), types.ExprString(arg), m})
 			}
 		}
 		return true
